@@ -145,14 +145,14 @@ func check(c Case) ev.Verdict {
 	ro := ref.Opts{Neg: true, Esc: c.Esc, Limit: c.Limit}
 	want := ref.Apply(doc, ops, ro)
 	got, perr := run(c)
-	if perr != nil {
-		return ev.Verdict{Err: perr}
-	}
 	if want.OutOfDomain() {
 		return ev.Excluded("out of domain: "+want.Res.Why, "ood")
 	}
 	if !want.OK() && want.Res.Cause != ref.CCopyLimit {
 		return ev.Excluded("an operation is inapplicable for another reason (C08)")
+	}
+	if perr != nil {
+		return ev.Verdict{Err: perr}
 	}
 	// classification for the evidence
 	free := ref.Apply(doc, ops, ref.Opts{Neg: true, Esc: c.Esc})
